@@ -278,6 +278,21 @@ func buildAndVerify(vc vcase) VObs {
 	} else {
 		blobDoc = &trustpolicy.BlobDocument{Version: "1.0", TrustPolicies: []trustpolicy.BlobTrustPolicy{{
 			Name: "bp", SignatureVerification: sv, TrustStores: stores, TrustedIdentities: ids}}}
+		if in.Stores != nil && in.Stores.Other != "" && !in.Skip && in.Sel == "ok" {
+			// a second statement whose NAME differs from the applicable one's by a trailing blank or by letter case only, listing
+			// another store: names are compared as written, that statement must never confer trust here
+			t, n := storeRef(in.Stores.Other, caStoreType(scheme))
+			pair := [][2]string{{"bp", "bp "}, {"bp ", "bp"}, {"bp", "BP"}, {"bp", " bp"}}[(vc.capOrd+vc.baseIdx)%4]
+			blobName = pair[0]
+			blobDoc.TrustPolicies[0].Name = pair[0]
+			near := trustpolicy.BlobTrustPolicy{Name: pair[1], SignatureVerification: trustpolicy.SignatureVerification{VerificationLevel: "strict"},
+				TrustStores: []string{string(t) + ":" + n}, TrustedIdentities: []string{"*"}}
+			if vc.sigMut%2 == 0 {
+				blobDoc.TrustPolicies = append(blobDoc.TrustPolicies, near)
+			} else {
+				blobDoc.TrustPolicies = append([]trustpolicy.BlobTrustPolicy{near}, blobDoc.TrustPolicies...)
+			}
+		}
 		if in.Sel == "nopolicy" {
 			blobName = "unlisted"
 			// the document has a GLOBAL statement listing the same stores and identities: a name that matches no statement must
